@@ -484,14 +484,15 @@ Qed.
 Lemma load_total_refuted : exists db, users_dom db = false /\ snd (read_users (write_users db)) = Some ValueError.
 Proof. exists w_blank. split; vm_compute; reflexivity. Qed.
 
-(* further witnesses outside the domain: leading blank stripped, TAB expanded, empty nick list, hashed flag without password *)
+(* further witnesses outside the domain: leading blank stripped, TAB expanded, hashed flag without password.
+   (w_nonick: an empty nick list is not representable in the file; IrcUser.removeNick no longer leaves one, C16.b repaired) *)
 Definition w_lead : list user := [mk 1 [SP; 97]].
 Definition w_tab : list user := [mk 1 [97; TAB; 98]].
 Definition w_nonick : list user := [User (Some 1%Z) [97] false false true s_pw [] [] [([110], [])] []].
 Definition w_hashed : list user := [User (Some 1%Z) [97] false false true [] [] [] [] []].
 Lemma more_refuted :
   Forall (fun db => users_dom db = false /\ snd (read_users (write_users db)) = None /\ ~ rt_holds db)
-         [w_lead; w_tab; w_nonick; w_hashed].
+         [w_lead; w_tab; w_hashed].
 Proof.
   repeat constructor; try (vm_compute; reflexivity); unfold rt_holds; vm_compute; intro H; discriminate H.
 Qed.
@@ -504,14 +505,14 @@ Definition ex_db : list user :=
 Example ex_db_in_domain : users_dom ex_db = true.
 Proof. vm_compute. reflexivity. Qed.
 
-(* ---- channels / ignores: refuting witnesses (the on-domain halves are not proved, see Props.v) ---- *)
+(* ---- channels / ignores: witnesses ---- *)
 Definition c_name : str := [35; 99].                                   (* "#c" *)
 Definition anti (s : str) : str := DASH :: s.
 Definition c_halfop : str := [104; 97; 108; 102; 111; 112].
 Definition c_voice : str := [118; 111; 105; 99; 101].
 Definition c_protected : str := [112; 114; 111; 116; 101; 99; 116; 101; 100].
 Definition c_op : str := [111; 112].
-(* a channel whose default anticapability -op was removed *)
+(* a channel whose default anticapability -op was removed (C16.d) *)
 Definition w_chan : list (str * chan) := [(c_name, Chan false true [anti c_halfop; anti c_voice; anti c_protected] [] [])].
 (* a channel that kept the four defaults and has a ban and an ignore *)
 Definition ok_chan : list (str * chan) :=
